@@ -76,7 +76,10 @@ func initSvc() {
 	svc.AddFunction(func(s string) string { return s }, "你好")
 	svc.AddFunction(func(s string) string { return s }, "ns_sub.method_1")
 	svc.AddFunction(func(s string) string { return s }, "x")
-	methods = append(methods, "你好", "ns_sub.method_1", "x")
+	svc.AddFunction(func(s string) string { return s }, "привет")
+	svc.AddFunction(func(s string) string { return s }, "Ünal_Ωmega")
+	svc.AddFunction(func(s string) string { return s }, "éCOLE2")
+	methods = append(methods, "你好", "ns_sub.method_1", "x", "привет", "Ünal_Ωmega", "éCOLE2")
 	svc.AddMissingMethod(func(name string, args []interface{}) ([]interface{}, error) { return args, nil })
 }
 
@@ -87,15 +90,15 @@ func spell(rng *rand.Rand, name string) string {
 	case 1:
 		return strings.ToUpper(name)
 	case 2:
-		b := []byte(name)
-		for i := range b {
-			if rng.Intn(2) == 0 && b[i] < 0x80 {
-				b[i] = strings.ToUpper(string(b[i]))[0]
-			} else if b[i] < 0x80 {
-				b[i] = strings.ToLower(string(b[i]))[0]
+		var sb strings.Builder
+		for _, r := range name {
+			if rng.Intn(2) == 0 {
+				sb.WriteString(strings.ToUpper(string(r)))
+			} else {
+				sb.WriteString(strings.ToLower(string(r)))
 			}
 		}
-		return string(b)
+		return sb.String()
 	}
 	return name
 }
@@ -143,6 +146,11 @@ func TestCheck(t *testing.T) {
 			mi, m, k := mi, m, k
 			r.Case(fmt.Sprintf("req/%s/%d", m, k), func(c *h.Case) { requestCase(c, mi, m, k) })
 		}
+	}
+	nmiss := r.Pick(1500, 20000)
+	for k := 0; k < nmiss; k++ {
+		k := k
+		r.Case(fmt.Sprintf("missing/%d", k), func(c *h.Case) { missingCase(c, k) })
 	}
 	nresp := r.Pick(10000, 100000)
 	for k := 0; k < nresp; k++ {
@@ -371,6 +379,68 @@ func requestCase(c *h.Case, mi int, m string, k int) {
 	}
 }
 
+// missingCase: an unpublished name is routed to the missing-method handler with all arguments
+// decoded as interface{} values.
+func missingCase(c *h.Case, k int) {
+	r := c.R
+	rng := c.Rand()
+	o := opts{clientSimple: k&1 == 1, serviceSimple: k&2 == 2}
+	if k%5 == 4 {
+		o.set = iox.RandSetting(rng)
+	}
+	shared := "shared-arg"
+	tree := &gentypes.Tree{Name: shared}
+	pool := []interface{}{shared, shared, "other string", tree, tree, 1, 2.5, nil, true, []byte("bytes"), []interface{}{shared, tree}, map[string]interface{}{"k": shared}, &gentypes.One{A: 3}, "x", ""}
+	n := rng.Intn(7)
+	args := make([]interface{}, n)
+	for i := range args {
+		args[i] = pool[rng.Intn(len(pool))]
+	}
+	name := []string{"unpublished", "NoSuchMethod", "нет_такого", "a.b.c", "y"}[rng.Intn(5)]
+	cctx := core.NewClientContext()
+	hdr := headerValues(rng)
+	for hk, hv := range hdr {
+		cctx.RequestHeaders().Set(hk, hv)
+	}
+	rep := map[string]interface{}{"name": name, "args": fmt.Sprintf("%#v", args), "opts": o.String()}
+	req, err := o.client().Encode(name, args, cctx)
+	if err != nil {
+		return
+	}
+	rep["request"] = h.Hex(clip(req, 1200))
+	sctx := core.NewServiceContext(svc)
+	var gotName string
+	var gotArgs []interface{}
+	p, st := h.Try(func() { gotName, gotArgs, err = o.service().Decode(append([]byte(nil), req...), sctx) })
+	r.Eval(1)
+	if p != nil {
+		c.Violation("service-decode-panic:missing:"+h.PanicClass(fmt.Sprint(p))+"@"+h.FirstRepoFrame(st), fmt.Sprintf("%v\n%s", p, h.TrimStack(st)), rep)
+		return
+	}
+	if err != nil {
+		if !canHold(args, o.set) {
+			return
+		}
+		c.Violation("service-decode-error:missing", fmt.Sprintf("%v\nrequest=%s", err, h.Hex(clip(req, 800))), rep)
+		return
+	}
+	if gotName != name || sctx.Method == nil || !sctx.Method.Missing() {
+		c.Violation("missing-method-routing", fmt.Sprintf("name %q decoded as %q, method %v", name, gotName, sctx.Method), rep)
+	}
+	if len(gotArgs) != n {
+		c.Violation("argument-count:missing", fmt.Sprintf("sent %d, decoded %d", n, len(gotArgs)), rep)
+		return
+	}
+	if canHold(args, o.set) {
+		if why := eqv.DEqual(eqv.Denote(args), eqv.Denote(gotArgs)); why != "" {
+			c.Violation("argument-denotation:missing", fmt.Sprintf("arguments of a call routed to the missing-method handler changed: %s\nsent=%#v\ngot =%#v\nrequest=%s", why, args, gotArgs, h.Hex(clip(req, 600))), rep)
+		}
+	}
+	if n > 1 {
+		r.Distinct(fmt.Sprintf("missing|%d|%s", k%64, o.String()))
+	}
+}
+
 // looseEqual: a convertible argument: digit strings and numbers of other widths denote the number.
 func looseEqual(a, b *eqv.D) string {
 	if a.K == eqv.KStr && (b.K == eqv.KInt || b.K == eqv.KFloat) {
@@ -570,8 +640,13 @@ func responseCase(c *h.Case, k int) {
 	if why := readResponse(resp, sp, hdr, o.serviceSimple); why != "" {
 		c.Violation("response-envelope:"+classOf(why), fmt.Sprintf("independent reader: %s\nresponse=%s", why, h.Hex(clip(resp, 800))), rep)
 	}
+	// the client decodes the response with the context that carried the request (its request
+	// headers hold the client's own simple flag)
 	cctx := core.NewClientContext()
 	cctx.ReturnType = sp.types
+	if _, e := o.client().Encode("m", nil, cctx); e != nil {
+		return
+	}
 	var got []interface{}
 	p, st = h.Try(func() { got, err = o.client().Decode(append([]byte(nil), resp...), cctx) })
 	r.Eval(1)
